@@ -310,8 +310,14 @@ class ConnSim(Sim):
         if k == 'conn_fail':
             if not self.connect_futs:
                 return []
-            self.resolve_connect(ConnectionRefusedError('refused'))
-            return ['ConnectFail']
+            # how open_connection fails: an OSError (refused / unreachable / DNS) or, for unusual peer data, something else:
+            # OverflowError (advertised port > 65535), UnicodeError (host name that cannot be IDNA-encoded), ValueError
+            kind = a[1] if len(a) > 1 else 'refused'
+            exc = {'refused': ConnectionRefusedError('refused'), 'oserror': OSError(113, 'No route to host'),
+                   'overflow': OverflowError('bind(): port must be 0-65535.'), 'unicode': UnicodeError('label empty or too long'),
+                   'value': ValueError('invalid address')}[kind]
+            self.resolve_connect(exc)
+            return ['ConnectFail' if isinstance(exc, OSError) else 'ConnectFailOther']
         if k == 'conn_timeout':
             if not self.connect_futs or self._closing_now() or self.hung_drain or self.ticks >= 4:
                 return []
